@@ -253,6 +253,7 @@ func checkC14(c *Ctx, e *Env) {
 	p := m.P
 	noteUndecided(c, m, r, "C14.E1")
 	ruleIdentifierRegexps(c, m, r)
+	importObligations(c, e, checkC09, "C09", "C14.GENVALID", "genesis rows#validated-by-their-own-type", "identifiers and references that enter the state through genesis are held to the same formats as those the handlers create: genesis validation hands every row of every table to the Validate method of that row's own type (a fresh message per row, no case missing)", func(o *Oblig) bool { return o.Rule == "C09.EXH" })
 	// ---------------- LANG
 	specs := []fmtSpec{
 		{basePkg, "FormatClassID", "regexClassID", map[int]string{0: "RegexCreditTypeAbbrev"}},
